@@ -389,6 +389,14 @@ impl Request {
         &mut self,
         raw_message: &[u8],
     ) -> Result<(ParseStatusInternal, usize), Error> {
+        // A carriage return at the very end of the input may turn out to be
+        // the first half of a line terminator.  It cannot complete anything
+        // yet, so hold it back; otherwise the header line length limit
+        // would depend on where the input happens to be split.
+        let raw_message = match raw_message.split_last() {
+            Some((b'\r', rest)) => rest,
+            _ => raw_message,
+        };
         let parse_results =
             self.headers.parse(raw_message).map_err(Error::Headers)?;
         self.count_bytes(parse_results.consumed)?;
